@@ -257,9 +257,14 @@ structure StrConv where
   autostrip : Bool
   deriving Repr, DecidableEq
 
-/-- `StrConverter.init`: `maxLen` is the positional or keyword max length (none = not given), `dfltLen` is
-    `provider.varchar_default_max_len` -/
-def strInit (isLong : Bool) (maxLen : Option Int) (dfltLen : Option Int) (autostrip : Bool) : Except String StrConv :=
+/-- `StrConverter.init`: `posLen` is the positional max length (`attr.args[0]`), `kwLen` the `max_len=` keyword
+    (none = not given), `dfltLen` is `provider.varchar_default_max_len` -/
+def strInit (isLong : Bool) (posLen kwLen : Option Int) (dfltLen : Option Int) (autostrip : Bool) : Except String StrConv :=
+  -- elif attr.args: if max_len is not None: throw(TypeError, 'Max length option specified twice …'); max_len = attr.args[0]
+  if posLen.isSome && kwLen.isSome then .error "TypeError" else
+  let maxLen : Option Int := match posLen with
+    | some m => some m
+    | Option.none => kwLen
   if isLong then
     if maxLen.isSome then .error "TypeError" else .ok { maxLen := Option.none, autostrip := autostrip }
   else match maxLen with
